@@ -334,7 +334,21 @@ func c06Run(c c06Case) []*core.Violation {
 		d, _ := l.Decoded()
 		haystacks = append(haystacks, d)
 	}
+	visible := map[string]bool{}
+	for _, k := range []string{"to", "cc", "from", "env", "replyto"} {
+		for _, a := range model[k] {
+			for _, b := range model["bcc"] {
+				// the search below is for substrings: a visible mailbox that contains the Bcc token hides it
+				if strings.Contains(strings.ToLower(a.Local), strings.ToLower(b.Local)) {
+					visible[strings.ToLower(b.Local)] = true
+				}
+			}
+		}
+	}
 	for _, b := range model["bcc"] {
+		if visible[strings.ToLower(b.Local)] {
+			continue // the same mailbox is also a visible recipient: its occurrence is not a leak
+		}
 		for _, h := range haystacks {
 			if bytes.Contains(bytes.ToLower(h), []byte(strings.ToLower(b.Local))) {
 				vs = append(vs, core.V("bcc-leaked", "the Bcc mailbox %s@%s appears in the rendered message", b.Local, b.Domain))
@@ -466,6 +480,9 @@ func c06Run(c c06Case) []*core.Violation {
 			}
 			// the committed content must not contain Bcc either
 			for _, b := range model["bcc"] {
+				if visible[strings.ToLower(b.Local)] {
+					continue
+				}
 				if bytes.Contains(bytes.ToLower(t.Payload), []byte(strings.ToLower(b.Local))) {
 					vs = append(vs, core.V("bcc-leaked", "the Bcc mailbox %s appears in the transmitted content", b.Local))
 				}
@@ -519,6 +536,11 @@ func c06GenAddr(t *rapid.T, hdr string, seq *int) c06Addr {
 	}
 	if hdr != "bcc" && rapid.IntRange(0, 6).Draw(t, "dup") == 0 {
 		a.Local = hdr + "dupzq" // duplicates are legal: one RCPT per occurrence
+	}
+	if hdr == "bcc" && rapid.IntRange(0, 7).Draw(t, "bccdup") == 0 {
+		// a blind copy for a mailbox that is (or differs only in case from) a visible recipient: still one
+		// RCPT per occurrence; local parts are case-sensitive (RFC 5321 2.4)
+		a.Local = rapid.SampledFrom([]string{"todupzq", "ccdupzq", "Todupzq", "CCDUPZQ"}).Draw(t, "bccduplocal")
 	}
 	return a
 }
